@@ -95,6 +95,8 @@ def echo_item(x):
 def item_or_raise(x):
     if x == 'POISON':
         raise ValueError('poison item')
+    if x == 'UNPICKLABLE':
+        return NeedsArgs(1, 2)      # can be sent, cannot be rebuilt by the receiver (constructor needs two arguments)
     y = ('r', x)
     return y
 
